@@ -7,6 +7,7 @@ from .. import paths
 from ..core import FUNC, call_attr, calls_in, const, dotted, is_const, kwarg, norm, text, walk_local
 
 EXPLANATION = [
+    "C06.connect-ind-address: shared with C03 / C05: CONNECT_IND announces the address the central's Connection is registered under.",
     'C06.adv-set-kept: on_hci_le_set_extended_advertising_parameters_command constructs an AdvertisingSet only for a handle not yet in self.advertising_sets.',
     'C06.lookup-by-address-only: LocalLink.find_classic_controller / find_le_controller select a controller by an address comparison only.',
     'C06.connect-test-reached: every path through Controller.on_advertising_pdu reaches the test of pending_le_connection (no early exit out of the scanning branch).',
@@ -573,7 +574,13 @@ def adv_set_kept(ctx):
         R.check(ok, rule, f'{CTRL}.on_hci_le_set_extended_advertising_parameters_command | only when new', 'constructed under `handle not in self.advertising_sets`', 'the record of an existing advertising set is replaced by a fresh one: its random address and its advertising / scan-response data are lost - the set stops advertising under its address (connections to it never complete) and scanners get empty data', p.loc(c))
 
 
+def connect_ind_address_rule(ctx):
+    from .c03 import connect_ind_address
+    connect_ind_address(ctx, 'C06.connect-ind-address')
+
+
 RULES = [
+    ('C06.connect-ind-address', connect_ind_address_rule),
     ('C06.adv-set-kept', adv_set_kept),
     ('C06.lookup-by-address-only', lookup_by_address_only),
     ('C06.connect-test-reached', connect_test_reached),
